@@ -87,7 +87,7 @@ Definition run_c05 (x : sx) : sx :=
           let '(Rm, fm) := run_flags (m_boundary M) follow in
           let P := top_cont Rs in
           L [of_cont (top_cont M); of_tree (viewmap M); of_tree (viewmap R);
-             of_bool (bool_decide (m_merge_build R = Some M));
+             of_bool (bool_decide (m_merge_build R = Some M) && bool_decide (m_merge_preorder R = Some M));
              L [L (map of_bool fs); L (map of_bool fm);
                 of_bool (bool_decide (top_cont Rm = P));
                 of_tree (viewmap Rs); of_tree (viewmap ((1, P) :: M)); of_tree (viewmap Rm)];
